@@ -258,6 +258,8 @@ def run_jobs(case):
                     rd = fp.FortranFileReader(path, **kw)
                 else:
                     rd = fp.FortranStringReader(src, **kw)
+                if job.get("fmt") is not None:
+                    rd.set_format(fp.FortranFormat(*job["fmt"]))
                 o, t = fp.parse(P, rd)
             except BaseException as e:  # noqa: BLE001
                 if isinstance(e, KeyboardInterrupt):
